@@ -58,6 +58,11 @@ type sysFixture struct {
 	nextID   atomic.Int64
 	// witnessYAML, if set, is appended to the configuration (witness section).
 	witnessYAML string
+	// shard window of the log (default: 2020 - 2090)
+	windowStart, windowLimit time.Time
+	// keepAlive adds a second, always active log to the configuration: a server
+	// whose logs are all read-only has no sequencer to supervise and exits.
+	keepAlive bool
 
 	mu       sync.Mutex
 	acks     []*sysAck
@@ -111,7 +116,10 @@ func newSysFixture(r *Run, rng *Rng) *sysFixture {
 		panic(err)
 	}
 	f.monPort = ln.Addr().(*net.TCPAddr).Port
-	f.mon = &http.Server{Handler: http.FileServer(http.Dir(f.LogDir))}
+	mux := http.NewServeMux()
+	mux.Handle("/log2/", http.StripPrefix("/log2/", http.FileServer(http.Dir(filepath.Join(f.Base, "log2")))))
+	mux.Handle("/", http.FileServer(http.Dir(f.LogDir)))
+	f.mon = &http.Server{Handler: mux}
 	go f.mon.Serve(ln)
 	return f
 }
@@ -201,7 +209,19 @@ func (f *sysFixture) writeConfig(name string, port int, periodMs int) string {
 	fmt.Fprintf(&b, "    secret: %s\n", filepath.Join(f.Base, "seed.bin"))
 	fmt.Fprintf(&b, "    cache: %s\n", filepath.Join(f.Base, "cache-"+name+".db"))
 	fmt.Fprintf(&b, "    localdirectory: %s\n", f.LogDir)
-	fmt.Fprintf(&b, "    notafterstart: \"2020-01-01T00:00:00Z\"\n    notafterlimit: \"2090-01-01T00:00:00Z\"\n")
+	ws, wl := "2020-01-01T00:00:00Z", "2090-01-01T00:00:00Z"
+	if !f.windowStart.IsZero() {
+		ws, wl = f.windowStart.Format(time.RFC3339), f.windowLimit.Format(time.RFC3339)
+	}
+	fmt.Fprintf(&b, "    notafterstart: \"%s\"\n    notafterlimit: \"%s\"\n", ws, wl)
+	if f.keepAlive {
+		os.MkdirAll(filepath.Join(f.Base, "log2"), 0o755)
+		if _, err := os.Stat(filepath.Join(f.Base, "seed2.bin")); err != nil {
+			os.WriteFile(filepath.Join(f.Base, "seed2.bin"), bytes.Repeat([]byte{0x5a}, 32), 0o600)
+		}
+		fmt.Fprintf(&b, "  - shortname: sys2\n    inception: \"%s\"\n    period: 200\n    submissionprefix: https://%s/log2\n    monitoringprefix: http://127.0.0.1:%d/log2\n    roots: %s\n    secret: %s\n    cache: %s\n    localdirectory: %s\n    notafterstart: \"2020-01-01T00:00:00Z\"\n    notafterlimit: \"2090-01-01T00:00:00Z\"\n",
+			time.Now().Format(time.DateOnly), sysHost, f.monPort, filepath.Join(f.Base, "roots.pem"), filepath.Join(f.Base, "seed2.bin"), filepath.Join(f.Base, "cache2-"+name+".db"), filepath.Join(f.Base, "log2"))
+	}
 	b.WriteString(f.witnessYAML)
 	p := filepath.Join(f.Base, "sunlight-"+name+".yaml")
 	os.WriteFile(p, []byte(b.String()), 0o644)
@@ -996,5 +1016,93 @@ func TestSysAcks(t *testing.T) {
 	}
 	if r.Counter("sys_acks") == 0 {
 		r.Inconcl("no submission was acknowledged")
+	}
+}
+
+// TestSysSunset: a log served by the real binary whose shard window ended more
+// than a week ago (read-only): submissions fail, nothing is signed any more,
+// and the published metadata names the final tree.
+func TestSysSunset(t *testing.T) {
+	r := NewRun(t, envStr("VERIF_SYS_PROPERTY", "C17"), "syssunset")
+	r.Rule = "the built cmd/sunlight binary first serves a log whose window contains the submitted certificates, is stopped, and is restarted with a window that ended 30 days ago (read-only date passed, relative to the wall clock at run time): every submission (new, and resubmission of an acknowledged chain) must fail with a non-200 answer, the checkpoint file and the lock row must not change while it runs, earlier acknowledgements stay in the tree; distinct = (phase, status)"
+	if _, err := os.Stat(sysBinary()); err != nil {
+		r.Inconcl("sunlight binary not built: %v", err)
+		return
+	}
+	shard, shards := shardInfo()
+	rng := NewRng(r.Seed, fmt.Sprint("syssunset", shard, "/", shards))
+	f := newSysFixture(r, rng)
+	defer f.Close()
+	f.info["workload"] = "syssunset"
+	f.keepAlive = true
+	now := time.Now().UTC().Truncate(time.Second)
+	na := now.Add(-40 * 24 * time.Hour)
+	f.windowStart, f.windowLimit = now.Add(-400*24*time.Hour), now.Add(400*24*time.Hour)
+	mk := func() *sysChain {
+		id := f.nextID.Add(1)
+		ic := f.PKI.inter["accepted"][0]
+		leaf := makeLeaf(rng, id, ic, leafSpec{NotAfter: na, EKU: "server"})
+		b := &c09Built{chain: [][]byte{leaf.DER, ic.DER}, leaf: leaf, issuerCA: ic}
+		return &sysChain{ID: id, Body: c09Body(c09Knobs{Body: "ok"}, b.chain), Built: b}
+	}
+	p := f.start("P", "main", f.PeriodMs, "")
+	if !p.waitReady(30 * time.Second) {
+		p.kill()
+		r.Inconcl("process did not become ready: %s", p.logTail())
+		return
+	}
+	var acked []*sysChain
+	for i := 0; i < 12; i++ {
+		ch := mk()
+		st, a := f.submit(p, ch)
+		r.Eval(1)
+		r.DistinctKey(fmt.Sprintf("active/%d", st))
+		if st == 200 && a != nil {
+			acked = append(acked, ch)
+		}
+	}
+	if len(acked) == 0 {
+		r.Inconcl("no submission accepted while the log was active: %s", p.logTail())
+		p.kill()
+		return
+	}
+	p.interrupt(5 * time.Second)
+	// ---- read-only --------------------------------------------------------
+	f.windowStart, f.windowLimit = now.Add(-400*24*time.Hour), now.Add(-30*24*time.Hour)
+	p = f.start("P", "main", f.PeriodMs, "")
+	if !p.waitReady(30 * time.Second) {
+		if p.alive() {
+			p.kill()
+			r.Inconcl("read-only start did not become ready within the watchdog")
+			return
+		}
+		f.violate("readonly-start-failed", "the server does not start on a log past its read-only date: %s", p.logTail())
+		return
+	}
+	cpBefore, _ := os.ReadFile(filepath.Join(f.LogDir, "checkpoint"))
+	lockBefore := f.lockCheckpoint()
+	for i := 0; i < 10; i++ {
+		ch := mk()
+		if i%2 == 1 {
+			ch = acked[rng.Intn(len(acked))]
+		}
+		st, _ := f.submit(p, ch)
+		r.Eval(1)
+		r.DistinctKey(fmt.Sprintf("readonly/resubmission=%v/%d", i%2 == 1, st))
+		r.Count(fmt.Sprintf("sys_readonly_status_%d", st), 1)
+		if st == 200 {
+			f.violate("submission-accepted-after-stop", "a submission (resubmission=%v) was answered 200 by a server whose log is past its read-only date", i%2 == 1)
+		}
+	}
+	time.Sleep(time.Duration(6*f.PeriodMs) * time.Millisecond)
+	cpAfter, _ := os.ReadFile(filepath.Join(f.LogDir, "checkpoint"))
+	if !bytes.Equal(cpBefore, cpAfter) || !bytes.Equal(lockBefore, f.lockCheckpoint()) {
+		f.violate("checkpoint-signed-after-stop", "the checkpoint file or the lock row changed while the read-only server ran")
+	}
+	p.interrupt(5 * time.Second)
+	if pub := f.observe(cpAfter, "published"); pub != nil {
+		if leaves := f.auditAt(pub, "published"); leaves != nil {
+			f.checkAcks(leaves, "published")
+		}
 	}
 }
